@@ -430,7 +430,7 @@ def evaluate_full(t, env, n, A):
 
 # ---------------------------------------------------------------- tracks
 
-TS = [64.0, 128.0, 256.0, 512.0, 1024.0] + [2048.0 + 64.0 * i for i in range(64)]     # seconds since 1970: powers of two, so that 1/t is exact in binary floating point
+TS = [64.0, 128.0, 256.0, 512.0, 1024.0] + [2048.0 + 64.0 * i for i in range(1200)]     # seconds since 1970: powers of two, so that 1/t is exact in binary floating point
 
 
 def make_track(n, xs=None, ys=None, zs=None, feats=None):
